@@ -389,11 +389,11 @@ func (s *verifC22Suite) addHandlers(runner *state.TaskRunner) {
 // ---------------------------------------------------------------- observation
 
 type v22Snapshot struct {
-	Conns     string                            `json:"conns"`
+	Conns     string `json:"conns"`
 	connsMap  map[string]map[string]interface{}
-	Repo      map[string][]string               `json:"repo"`
-	All       []string                          `json:"all"`
-	Installed []string                          `json:"installed"`
+	Repo      map[string][]string `json:"repo"`
+	All       []string            `json:"all"`
+	Installed []string            `json:"installed"`
 }
 
 // connsState reads the persisted map; absent and empty are the same value.
@@ -499,7 +499,9 @@ type v22Fault struct {
 	Pos  int    `json:"pos"`
 }
 
-func (o v22Op) manual() bool { return o.Kind == "connect" || o.Kind == "disconnect" || o.Kind == "forget" }
+func (o v22Op) manual() bool {
+	return o.Kind == "connect" || o.Kind == "disconnect" || o.Kind == "forget"
+}
 
 func v22Split(ref string) (string, string) {
 	p := strings.SplitN(ref, ":", 2)
